@@ -399,6 +399,8 @@ def r2011_regions(ctx):
     ctx.rule("R20.11", "parameter regions accepted by the constructors equal the documented ones (exhaustive over order "
                        "cells): ErrorRate costs = dict with exactly keys fp, fn, both >= 0, sum > 0; GridSearch constraints "
                        "is a Moment, known selection rule, constraint_weight in [0,1]. (UtilityParity bounds: C06 R06.2.)")
+    from .c06 import utility_parity_ctor_table
+    utility_parity_ctor_table(ctx, "R20.11")
     A = Analysis(ctx)
     cls = M_ER + ":ErrorRate"
     r = A.run(cls + ".__init__", cls_ctx=cls)
